@@ -6,10 +6,10 @@ import kani_run
 from common import Result
 
 
-def run(prop, prefixes, tier, seed, meta, expected_panics=(), jobs=8, timeout_s=None, known_key=None):
+def run(prop, prefixes, tier, seed, meta, expected_panics=(), jobs=8, timeout_s=None, known_key=None, single_query=True):
     """meta: dict(functions=[...], bounds=str, samples=[...], assumptions=[...], sample_fn=optional)"""
     res = Result(prop, tier, seed, "model_checking")
-    frag = kani_run.run_group(res, prop, prefixes, tier, expected_panics=expected_panics, jobs=jobs, timeout_s=timeout_s)
+    frag = kani_run.run_group(res, prop, prefixes, tier, expected_panics=expected_panics, jobs=jobs, timeout_s=timeout_s, single_query=single_query)
     known = common.load_known_findings()
     replayed = 0
     for n, d in frag.get("candidates", []):
@@ -40,6 +40,7 @@ def run(prop, prefixes, tier, seed, meta, expected_panics=(), jobs=8, timeout_s=
         "harnesses_passed": len(passed),
         "reachability_witnesses_satisfied": frag.get("covers_satisfied", 0),
         "kani_wall_s": frag.get("kani_wall_s"),
+        "mode": frag.get("mode"),
         "cbmc_s_total": round(sum(h.get("cbmc_s", 0) for h in hs if isinstance(h, dict)), 1),
         "functions_encoded": meta["functions"],
         "bounds": meta["bounds"],
